@@ -27,9 +27,10 @@ import (
 )
 
 type job struct {
-	Idx     []int  `json:"idx"`
-	Profile string `json:"profile"`
-	Poll    bool   `json:"poll"`
+	Idx     []int          `json:"idx"`
+	Profile string         `json:"profile"`
+	Poll    bool           `json:"poll"`
+	Opts    engine.Options `json:"opts"`
 }
 
 func childMain() {
@@ -45,17 +46,24 @@ func childMain() {
 		}
 		specs := make([]*engine.Spec, len(j.Idx))
 		for k, i := range j.Idx {
-			specs[k] = engine.Generate(seed, j.Profile, i)
+			specs[k] = engine.Generate(seed, j.Profile, i, j.Opts)
 			if j.Poll {
 				specs[k].Poll = true
 			}
 		}
-		res := engine.RunGroup(specs, seed)
+		res := engine.RunGroup(specs, seed, j.Opts)
 		b, _ := json.Marshal(res)
 		out.Write(b)
 		out.WriteByte('\n')
 		out.Flush()
 	}
+}
+
+func tail(s string, n int) string {
+	if len(s) > n {
+		return "..." + s[len(s)-n:]
+	}
+	return s
 }
 
 func envInt(k string, d int) int {
@@ -66,15 +74,39 @@ func envInt(k string, d int) int {
 }
 
 type child struct {
-	cmd *exec.Cmd
-	in  *bufio.Writer
-	out *bufio.Scanner
+	cmd  *exec.Cmd
+	in   *bufio.Writer
+	out  *bufio.Scanner
+	errb *tailBuf
+}
+
+// tailBuf keeps the last bytes the child wrote to stderr (a Go panic / log.Fatalf message ends up there).
+type tailBuf struct {
+	mu sync.Mutex
+	b  []byte
+}
+
+func (t *tailBuf) Write(p []byte) (int, error) {
+	t.mu.Lock()
+	t.b = append(t.b, p...)
+	if len(t.b) > 16000 {
+		t.b = t.b[len(t.b)-16000:]
+	}
+	t.mu.Unlock()
+	return len(p), nil
+}
+
+func (t *tailBuf) String() string {
+	t.mu.Lock()
+	defer t.mu.Unlock()
+	return string(t.b)
 }
 
 func startChild() (*child, error) {
 	cmd := exec.Command(os.Args[0], "-child")
 	cmd.Env = os.Environ()
-	cmd.Stderr = nil
+	eb := &tailBuf{}
+	cmd.Stderr = eb
 	ip, err := cmd.StdinPipe()
 	if err != nil {
 		return nil, err
@@ -88,7 +120,7 @@ func startChild() (*child, error) {
 	}
 	sc := bufio.NewScanner(op)
 	sc.Buffer(make([]byte, 1<<20), 1<<28)
-	return &child{cmd: cmd, in: bufio.NewWriter(ip), out: sc}, nil
+	return &child{cmd: cmd, in: bufio.NewWriter(ip), out: sc, errb: eb}, nil
 }
 
 func (c *child) kill() {
@@ -98,13 +130,13 @@ func (c *child) kill() {
 	}
 }
 
-// run sends one job; nil result = the child died or did not answer in time.
-func (c *child) run(j job, timeout time.Duration) []engine.Result {
+// run sends one job; nil result = the child died (died = true: its output ended) or did not answer in time.
+func (c *child) run(j job, timeout time.Duration) (res []engine.Result, died bool) {
 	b, _ := json.Marshal(j)
 	c.in.Write(b)
 	c.in.WriteByte('\n')
 	if c.in.Flush() != nil {
-		return nil
+		return nil, true
 	}
 	ch := make(chan []engine.Result, 1)
 	go func() {
@@ -119,9 +151,9 @@ func (c *child) run(j job, timeout time.Duration) []engine.Result {
 	}()
 	select {
 	case r := <-ch:
-		return r
+		return r, r == nil
 	case <-time.After(timeout):
-		return nil
+		return nil, false
 	}
 }
 
@@ -135,6 +167,8 @@ func main() {
 	poll := flag.Bool("poll", false, "poll Workstream.Plan every ~200us and log distinct snapshots as EvRead")
 	only := flag.String("only", "", "comma separated case indices to run (replay)")
 	reps := flag.Int("reps", 1, "repeat every case this many times (replay of schedule-dependent cases)")
+	deferred := flag.Float64("deferred", 0, "every scope without a deferred group gets one with this probability (0 = the profiles as they are)")
+	racestart := flag.Int("racestart", 0, "k >= 2: call Workstream.Start from k goroutines released together (exactly one must succeed)")
 	workers := flag.Int("workers", 0, "child processes (default: min(16, NumCPU))")
 	flag.Parse()
 	if *isChild {
@@ -186,7 +220,7 @@ func main() {
 	}
 	var jobs []job
 	for i := 0; i < len(idx); i += max(1, *multi) {
-		jobs = append(jobs, job{Idx: idx[i:min(len(idx), i+max(1, *multi))], Profile: *profile, Poll: *poll})
+		jobs = append(jobs, job{Idx: idx[i:min(len(idx), i+max(1, *multi))], Profile: *profile, Poll: *poll, Opts: engine.Options{DeferredP: *deferred, RaceStart: *racestart}})
 	}
 	nw := *workers
 	if nw <= 0 {
@@ -223,8 +257,13 @@ func main() {
 							os.Exit(2)
 						}
 					}
-					res := c.run(jobs[pos], engine.WaitDeadline+20*time.Second)
-					taint, hang, late := res == nil, res == nil, false
+					res, died := c.run(jobs[pos], engine.WaitDeadline+20*time.Second)
+					taint, hang, late := res == nil, res == nil && !died, false
+					stderr := ""
+					if res == nil && died {
+						c.cmd.Wait()
+						stderr = c.errb.String()
+					}
 					for _, r := range res {
 						taint = taint || r.Taint
 						hang = hang || r.Hang
@@ -237,12 +276,27 @@ func main() {
 						stats["children_discarded"]++
 						statMu.Unlock()
 					}
-					if res == nil { // the child itself died or froze: an observation of its own
+					if res == nil { // the child process panicked / exited, or froze: an observation of the case(s) it was running
 						res = make([]engine.Result, len(jobs[pos].Idx))
 						for q, i := range jobs[pos].Idx {
-							res[q] = engine.Result{Hang: true, Case: core.Case{ID: fmt.Sprintf("%s-%d", jobs[pos].Profile, i), Kind: "child-died",
-								Coq: "", Note: "hang: the child process died or did not answer", Input: map[string]any{"seed": core.Seed(), "index": i, "profile": jobs[pos].Profile}}}
+							sp := engine.Generate(core.Seed(), jobs[pos].Profile, i, jobs[pos].Opts)
+							cs := core.Case{ID: fmt.Sprintf("%s-%d", jobs[pos].Profile, i), Kind: "child-froze", Coq: "",
+								Note:  "hang: the child process did not answer",
+								Dist:  map[string]any{"profile": jobs[pos].Profile},
+								Input: map[string]any{"seed": core.Seed(), "index": i, "profile": jobs[pos].Profile, "spec": sp, "opts": jobs[pos].Opts}}
+							if died {
+								cs.Kind = "panic"
+								cs.Note = "panic: the process running the engine died: " + tail(stderr, 3000)
+								cs.Observed = map[string]any{"stderr": tail(stderr, 6000)}
+								cs.Dist["panic"] = true
+							}
+							res[q] = engine.Result{Hang: !died, Taint: true, Case: cs}
 						}
+						statMu.Lock()
+						if died {
+							stats["panics"]++
+						}
+						statMu.Unlock()
 					}
 					final = res
 					if hang && hangs < 2 { // re-run a hang up to 3x in fresh children before it is reported
@@ -258,6 +312,10 @@ func main() {
 				for q := range final {
 					if final[q].Case.Dist == nil {
 						final[q].Case.Dist = map[string]any{}
+					}
+					if in, ok := final[q].Case.Input.(map[string]any); ok {
+						in["opts"] = jobs[pos].Opts
+						in["poll"] = jobs[pos].Poll
 					}
 					final[q].Case.Dist["hang_reruns"] = hangs
 					final[q].Case.Dist["late_reruns"] = lates
